@@ -4,8 +4,8 @@ CONSTANTS
   Versions = {1, 2}
   NShards = 2
   Validate = TRUE
-  MaxSteps = 7
-  Truncates = TRUE
+  MaxSteps = 11
+  Truncates = FALSE
 INVARIANTS Usable RoundTrip LoadTotal
 PROPERTIES CrashSafe DumpRoundTrip
 CHECK_DEADLOCK FALSE
